@@ -321,6 +321,19 @@ def energy_body(ctx, case):
         ctx.fail(f"optimize:raised-{type(e).__name__}:{case['kind']}", case, f"{type(e).__name__}: {str(e)[:300]}")
         return
     e_lib = hf_energy(float(case["h0"]), h1, chol, Ca2 @ Ca2.T, Cb2 @ Cb2.T)
+    if abs(e_lib - e_ref) > 1e-7 * max(1.0, abs(e_ref)):
+        # "well-conditioned" has to include the algorithm: plain Roothaan iteration (no damping, no DIIS - what optimize documents) oscillates
+        # between two densities for some problems and guesses. An independent implementation of that same iteration from the same guess tells
+        # an intrinsic oscillation (skip, counted) from a defect of the library's iteration (violation).
+        Pa, Pb = G[0][:, : nelec[0]] @ G[0][:, : nelec[0]].T, G[1][:, : nelec[1]] @ G[1][:, : nelec[1]].T
+        for _ in range(30):
+            Fa, Fb = fock_build(h1[0], chol, Pa, Pa + Pb), fock_build(h1[1], chol, Pb, Pa + Pb)
+            A_, B_ = np.linalg.eigh(Fa)[1][:, : nelec[0]], np.linalg.eigh(Fb)[1][:, : nelec[1]]
+            Pa, Pb = A_ @ A_.T, B_ @ B_.T
+        e_model = hf_energy(float(case["h0"]), h1, chol, Pa, Pb)
+        if abs(e_model - e_ref) > 1e-7 * max(1.0, abs(e_ref)):
+            ctx.count("skipped:plain-roothaan-model-does-not-converge-from-this-guess")
+            return
     ctx.check_close(f"energy:differs-from-independent-scf:{case['kind']}", case, f"HF energy of optimize output - independent SCF ({case['kind']})", e_lib, e_ref, 1e-7, max(1.0, abs(e_ref)))
 
 
